@@ -903,7 +903,8 @@ class Terms:
         args = tuple(self.operand(a, bb, idx) for a in t["args"])
         if nm is None:
             return ("callptr", self.operand(t["fnptr"], bb, idx), args)
-        if nm in TRANSPARENT and args:
+        if nm in TRANSPARENT and args and not (t.get("rkey") in self.b.prog.bodies and nm.split("::")[-1] in ("from", "into", "try_from", "try_into")):
+            # (a conversion with a local impl — `Totals::from(&state)` — is a call of that impl, not an identity)
             return args[0]
         if nm == "std::ops::Try::branch" and args:
             return ("trybranch", args[0])
